@@ -165,24 +165,26 @@ func vSymName(tag string, n int) string {
 	return s
 }
 
-// free-form payload of a selected shape (any_shapes of them are explored)
+// free-form payload. Shape 0 is one rich value holding every JSON kind (string, number, booleans, nulls,
+// empty objects, nesting, zero) and, under a symbolic bit, empty arrays; the other shapes are bare values.
 func vAnyVal(tag string, depth int) vJ {
 	k := vParam("any_shapes", 2)
 	switch vVar(k, tag+".shape") {
 	case 0:
-		return vJStr(vNondetOStr(tag + ".s"))
-	case 1:
-		// one rich payload: every JSON kind, nulls, empty containers, nesting, zero
 		f := vNondetFloat64(tag + ".f")
 		vAssume(vFinite(f))
+		ea := vNondetBool(tag + ".emptyarr")
 		in := vJObj()
 		vJAdd(in, true, "b", vJBool(vNondetBool(tag+".b")))
 		vJAdd(in, true, "z", vJNull())
-		vJAdd(in, true, "e", vJArr([]vJ{}))
+		vJAdd(in, ea, "e", vJArr([]vJ{}))
 		o := vJObj()
-		vJAdd(o, true, "k", vJArr([]vJ{vJStr(vNondetOStr(tag + ".s")), vJFloat(f), vJNull(), vJArr([]vJ{}), vJObj(), in, vJInt(0)}))
+		vJAdd(o, true, "k", vJArr([]vJ{vJStr(vNondetOStr(tag + ".s")), vJFloat(f), vJNull(), vJObj(), in, vJInt(0)}))
 		vJAdd(o, true, "n", vJNull())
+		vJAdd(o, ea, "ea", vJArr([]vJ{}))
 		return o
+	case 1:
+		return vJStr(vNondetOStr(tag + ".s"))
 	case 2:
 		f := vNondetFloat64(tag + ".f")
 		vAssume(vFinite(f))
@@ -325,7 +327,11 @@ func vBuildVal(kw vKW, depth int, tag string, o vDocOpts) vJ {
 	case shConst:
 		return vJStr(kw.Enum[0])
 	case shRef:
-		return vJStr([]string{"#/definitions/Pet", "other.json#/definitions/Pet", "http://h.example/s.json"}[vVar(3, tag)])
+		refs := []string{"#/definitions/Pet", "other.json#/definitions/Pet", "http://h.example/s.json", "#", ""}
+		if vParam("ref_primary", 0) == 1 {
+			return vJStr(refs[vChoose(len(refs), tag)])
+		}
+		return vJStr(refs[vVar(3, tag)])
 	case shSchemaURL:
 		return vJStr([]string{"http://json-schema.org/draft-04/schema", "http://json-schema.org/draft-04/schema#"}[vChoose(2, tag)])
 	case shChild:
@@ -367,7 +373,13 @@ func vBuildVal(kw vKW, depth int, tag string, o vDocOpts) vJ {
 		// requirements: [ {name: [scope...]} ... ] including empty scope lists
 		req := vJObj()
 		vJAdd(req, true, "s"+vSymName(tag+".scheme", 1), vStrArr(tag+".scope", vVar(2, tag+".nscopes")))
-		return vJArr([]vJ{req})
+		if vParam("sec_reqs", 1) < 2 {
+			return vJArr([]vJ{req})
+		}
+		req2 := vJObj()
+		vJAdd(req2, true, "t"+vSymName(tag+".scheme2", 1), vStrArr(tag+".scope2", 1))
+		vJAdd(req2, vNondetBool(tag+".second.present"), "u", vJArr([]vJ{}))
+		return vJArr([]vJ{req, req2})
 	case shScopes:
 		m := vJObj()
 		vJAdd(m, true, "r"+vSymName(tag+".scope", 1), vJStr(vNonEmptyOStr(tag+".descr")))
